@@ -141,7 +141,7 @@ pub fn run(seed: u64, n_random: u64) {
             let (w0, fm, nbytes) = match insn_rel {
                 Some(ir) => {
                     let k = spec::kind(ir.arch, ir.kind);
-                    let t = &k.templates[(r.next() as usize) % k.templates.len()];
+                    let t = &k.templates[0];
                     ((t.base | (r.next() & t.free)) & !k.field_mask(), k.field_mask(), k.nbytes)
                 }
                 None => (r.next(), 0, rel.nbytes),
@@ -204,6 +204,10 @@ pub fn run(seed: u64, n_random: u64) {
                         continue;
                     }
                     must_acc += 1;
+                    if insn_rel.is_some() || rel.insn {
+                        // how the value is encoded into the instruction is C13's subject
+                        continue;
+                    }
                     // written bytes
                     let after = u64::from_le_bytes(buf[..8].try_into().unwrap());
                     let want = match insn_rel {
@@ -235,6 +239,24 @@ pub fn run(seed: u64, n_random: u64) {
         );
     }
 }
+
+/// `units table`: the independent range table with its value-class breakpoints, as JSON lines.
+pub fn table() {
+    for rel in RANGE_RELS {
+        let bps: Vec<String> = breakpoints(rel).iter().map(|b| format!("\"{b}\"")).collect();
+        out::record(
+            "range",
+            &format!(
+                "\"arch\":\"{}\",\"r_type\":{},\"name\":\"{}\",\"nbytes\":{},\"acc_lo\":\"{}\",\"acc_hi\":\"{}\",\"rej_lo\":\"{}\",\"rej_hi\":\"{}\",\"align\":{},\"insn\":{},\"breakpoints\":[{}],\"wild_supports\":{}",
+                rel.arch, rel.r_type, rel.name, rel.nbytes, rel.acc_lo, rel.acc_hi, rel.rej_lo, rel.rej_hi, rel.align, rel.insn,
+                bps.join(","), wild_rel_info(rel.arch, rel.r_type).is_some()
+            ),
+        );
+    }
+}
+
+/// `units classify <arch> <r_type> <value>...` is not needed: classes are recomputed by the driver
+/// from the breakpoints with the same rule as `class_of`.
 
 /// `units probe <arch> <r_type> <value> <word>`: one write_to_buffer call, for by-hand reproduction.
 pub fn probe(arch: &str, r_type: u32, value: u64, word: u64) {
